@@ -424,7 +424,7 @@ theorem normalizeFn_closed (τ : Ty) {D : Poly} (c : Rat) (hn : (keys D).Nodup)
 theorem abs_div_mul_self {c M : Rat} (hM : 0 < M) : |c / M| * M = |c| := by
   rw [abs_div, abs_of_pos hM, div_mul_cancel₀ _ (ne_of_gt hM)]
 
-/-! ### normalize: the method's live iteration in closed form -/
+/-! ### normalize: the method's loop over the key snapshot in closed form -/
 
 theorem get_mid {pre post : Poly} {k : Key} (v : Rat) (h : k ∉ keys pre) :
     get (pre ++ (k, v) :: post) k = v := by
@@ -446,11 +446,23 @@ theorem put_mid {pre post : Poly} {k : Key} (v w : Rat) (h : k ∉ keys pre) :
     simp only [List.cons_append, put, if_neg (fun e => h.1 e.symm : ¬ k' = k)]
     rw [ih h.2]
 
-theorem iterScale_closed {sq : Sq} {m : Rat} (hm : m ≠ 0) (L pre : Poly)
-    (hn : (keys (pre ++ L)).Nodup) (hf : ∀ k ∈ keys L, sq k = .ok k) (hz : ∀ kv ∈ L, kv.2 ≠ 0) :
-    iterScale sq (pre ++ L) (keys L) m = .ok (pre ++ scaleAll m L) := by
+theorem erase_mid {pre post : Poly} {k : Key} (v : Rat) (h : k ∉ keys pre) :
+    erase (pre ++ (k, v) :: post) k = pre ++ post := by
+  induction pre with
+  | nil => simp [erase]
+  | cons kv r ih =>
+    obtain ⟨k', v'⟩ := kv
+    simp only [keys, List.map_cons, List.mem_cons, not_or] at h
+    simp only [List.cons_append, erase, if_neg (fun e => h.1 e.symm : ¬ k' = k)]
+    rw [ih h.2]
+
+/-- `for k in tuple(self.keys()): self[k] *= m` on distinct fixed keys: every entry is scaled in place,
+entries that become zero are removed -/
+theorem scaleKeys_closed {sq : Sq} (m : Rat) (L pre : Poly)
+    (hn : (keys (pre ++ L)).Nodup) (hf : ∀ k ∈ keys L, sq k = .ok k) :
+    scaleKeys sq (pre ++ L) (keys L) m = .ok (pre ++ dropZeros (scaleAll m L)) := by
   induction L generalizing pre with
-  | nil => simp [iterScale, keys]
+  | nil => simp [scaleKeys, keys, dropZeros]
   | cons kv r ih =>
     obtain ⟨k, v⟩ := kv
     have hk : k ∉ keys pre := by
@@ -459,27 +471,44 @@ theorem iterScale_closed {sq : Sq} {m : Rat} (hm : m ≠ 0) (L pre : Poly)
       have := (List.nodup_append.1 hn).2.2
       exact fun hmem => this k hmem k List.mem_cons_self rfl
     have hsq : sq k = .ok k := hf k (by simp [keys])
-    have hv : v ≠ 0 := hz (k, v) List.mem_cons_self
-    have hvm : v * m ≠ 0 := mul_ne_zero hv hm
-    have hstep : mulItem sq (pre ++ (k, v) :: r) k m = .ok ((pre ++ [(k, m * v)]) ++ r) := by
-      have hg := get_mid (post := r) v hk
-      unfold mulItem
-      simp only [hsq, bind, Except.bind, pure, Except.pure, hg]
-      unfold set
-      rw [if_neg hvm, put_mid v (v * m) hk, mul_comm v m]
-      simp
-    simp only [keys, List.map_cons, iterScale, bind, Except.bind]
-    rw [hstep]
-    simp only [List.length_append, List.length_cons, List.length_nil, ne_eq]
-    rw [if_neg (by omega)]
-    have := ih (pre ++ [(k, m * v)])
-      (by
-        have e : keys ((pre ++ [(k, m * v)]) ++ r) = keys (pre ++ (k, v) :: r) := by simp [keys]
-        rw [e]; exact hn)
-      (fun k2 hk2 => hf k2 (by simp only [keys, List.map_cons, List.mem_cons]; exact Or.inr hk2))
-      (fun kv hkv => hz kv (List.mem_cons_of_mem _ hkv))
-    simp only [keys] at this
-    rw [this]; simp
+    have hr : ∀ k2 ∈ keys r, sq k2 = .ok k2 :=
+      fun k2 hk2 => hf k2 (by simp only [keys, List.map_cons, List.mem_cons]; exact Or.inr hk2)
+    have hg := get_mid (post := r) v hk
+    by_cases hvm : v * m = 0
+    · have hstep : mulItem sq (pre ++ (k, v) :: r) k m = .ok (pre ++ r) := by
+        unfold mulItem
+        simp only [hsq, bind, Except.bind, pure, Except.pure, hg]
+        unfold set
+        rw [if_pos hvm, erase_mid v hk]
+      have h2 : dropZeros (scaleAll m ((k, v) :: r)) = dropZeros (scaleAll m r) := by
+        simp [dropZeros, mul_comm m v, hvm]
+      simp only [keys, List.map_cons, scaleKeys, bind, Except.bind]
+      rw [hstep, h2]
+      have := ih pre
+        (by
+          rw [keys_append] at hn ⊢
+          simp only [keys, List.map_cons] at hn
+          exact List.Nodup.sublist
+            (List.Sublist.append_left (List.sublist_cons_self k _) _) hn) hr
+      simp only [keys] at this
+      exact this
+    · have hstep : mulItem sq (pre ++ (k, v) :: r) k m = .ok ((pre ++ [(k, m * v)]) ++ r) := by
+        unfold mulItem
+        simp only [hsq, bind, Except.bind, pure, Except.pure, hg]
+        unfold set
+        rw [if_neg hvm, put_mid v (v * m) hk, mul_comm v m]
+        simp
+      have h2 : dropZeros (scaleAll m ((k, v) :: r)) = (k, m * v) :: dropZeros (scaleAll m r) := by
+        simp [dropZeros, mul_comm m v, hvm]
+      simp only [keys, List.map_cons, scaleKeys, bind, Except.bind]
+      rw [hstep, h2]
+      have := ih (pre ++ [(k, m * v)])
+        (by
+          have e : keys ((pre ++ [(k, m * v)]) ++ r) = keys (pre ++ (k, v) :: r) := by simp [keys]
+          rw [e]; exact hn) hr
+      simp only [keys] at this
+      show scaleKeys sq ((pre ++ [(k, m * v)]) ++ r) (List.map Prod.fst r) m = _
+      rw [this]; simp
 
 theorem wf_maxAbs_pos {sq : Sq} {D : Poly} (h : WF sq D) (hne : D ≠ []) : 0 < maxAbs D := by
   cases D with
@@ -489,30 +518,23 @@ theorem wf_maxAbs_pos {sq : Sq} {D : Poly} (h : WF sq D) (hne : D ≠ []) : 0 < 
     have h2 : 0 < |kv.2| := abs_pos.2 (h.nonzero kv List.mem_cons_self)
     exact lt_of_lt_of_le h2 h1
 
-theorem normalizeM_closed {κ : Kind} {D : Poly} {c : Rat} (h : WF (squash κ) D) (hne : D ≠ [])
-    (hc : c ≠ 0) : normalizeM κ D c = .ok (scaleAll (c / maxAbs D) D) := by
+/-- the method computes exactly what the function computes, for every requested value -/
+theorem normalizeM_closed {κ : Kind} {D : Poly} (c : Rat) (h : WF (squash κ) D) (hne : D ≠ []) :
+    normalizeM κ D c = .ok (normOut (.da κ) (c / maxAbs D) D) := by
   have hpos := wf_maxAbs_pos h hne
   have he : D.isEmpty = false := by cases D <;> simp_all
   unfold normalizeM
   simp only [he, ne_of_gt hpos, if_false, Bool.false_eq_true]
-  have := iterScale_closed (sq := squash κ) (m := c / maxAbs D) (div_ne_zero hc (ne_of_gt hpos)) D []
-    (by simpa using h.nodup) h.fixed h.nonzero
-  simpa [keys] using this
+  have := scaleKeys_closed (sq := squash κ) (c / maxAbs D) D [] (by simpa using h.nodup) h.fixed
+  simpa [keys, normOut] using this
 
-/-- `value = 0`: the first assignment pops the entry and the live iteration fails -/
-theorem normalizeM_zero {κ : Kind} {D : Poly} (h : WF (squash κ) D) (hne : D ≠ []) :
-    normalizeM κ D 0 = .error .other := by
-  have hpos := wf_maxAbs_pos h hne
-  cases D with
-  | nil => exact absurd rfl hne
-  | cons kv r =>
-    obtain ⟨k, v⟩ := kv
-    have hsq : squash κ k = .ok k := h.fixed k (by simp [keys])
-    unfold normalizeM
-    simp only [List.isEmpty_cons, ne_of_gt hpos, if_false, Bool.false_eq_true, zero_div, List.map_cons,
-      iterScale, mulItem, hsq, bind, Except.bind, pure, Except.pure, mul_zero, set, if_true, erase,
-      List.length_cons]
-    simp
+theorem dropZeros_scaleAll_zero (D : Poly) : dropZeros (scaleAll 0 D) = [] := by
+  unfold dropZeros
+  rw [List.filter_eq_nil_iff]
+  intro kv hkv
+  simp only [scaleAll, List.mem_map] at hkv
+  obtain ⟨kv0, _, rfl⟩ := hkv
+  simp
 
 theorem scaleAll_wf {sq : Sq} {D : Poly} {m : Rat} (h : WF sq D) (hm : m ≠ 0) : WF sq (scaleAll m D) := by
   refine ⟨by rw [keys_scaleAll]; exact h.nodup, fun k hk => h.fixed k (by rwa [keys_scaleAll] at hk), ?_⟩
